@@ -849,7 +849,9 @@ theorem tS_recursion {p init step : Ast} (h0 : a.kid 0 = some p) (h1 : a.kid 1 =
       · exact t0_pure _ trivial
     apply t0_bind hcond; intro _ _
     apply t0_bind (t0_endScope _); intro _ _
-    exact t0_setCur _ (isTy_ty _)
+    split
+    · exact t0_kidErr hi _ _
+    · exact t0_setCur _ (isTy_ty _)
 
 /-! ### calls -/
 
